@@ -1346,3 +1346,825 @@ class MsgTypes:
                     out |= self.types(csc, r.value, env2, depth - 1) if r.value is not None else {"?"}
                 return out
         return {"?"}
+
+
+# ---------------------------------------------------------------------------------------------------------
+# the domain of a field that is compared by identity: which values can a store put into `<x>.mtype`?
+
+
+def _tag(kind, why="", tr="?"):
+    return (kind, why, tr)
+
+
+T_NONE = _tag("none", "", "f")
+
+
+def _truthy(vals):
+    """the values of `vals` that can be truthy (as what they then are)"""
+    return frozenset((k, w, "t") for k, w, tr in vals if tr != "f")
+
+
+def _falsy(vals):
+    return frozenset((k, w, "f") for k, w, tr in vals if tr != "t")
+
+
+class FieldDomain:
+    """Forward data-flow (per function, over its CFG, with refinement at branch outcomes) of the abstract values
+
+        none    -- the object None
+        member  -- a member of the enumeration (`Type(x)`, `Type[x]`, `CON`, `Type.CON`, `numbers.CON` ...: calling
+                   an Enum class returns the member itself, never a copy)
+        raw     -- something that is certainly or possibly neither: a value handed in by the caller, a number, a
+                   Boolean, the result of arithmetic (IntEnum arithmetic yields plain ints), a literal collection
+        opaque  -- a value the evaluator cannot interpret (result of an unknown call, await, subscript ...)
+
+    each with its possible truthiness (`t`/`f`/`?`), so that `a and b`, `a or b`, `b if a else c`, `c and X or Y`
+    are evaluated as what they yield, not as what they look like.  A read of the field itself (`other.mtype`)
+    yields {none, member}: the inductive hypothesis of the invariant the caller is establishing over *all* stores.
+    Locals are followed path-sensitively as far as a union-join data-flow allows (reassigned parameters, values
+    normalised in one branch only, guard clauses); calls of functions of the package are evaluated on their
+    return values with the arguments bound."""
+
+    def __init__(self, prog, field, enum_short):
+        self.prog = prog
+        self.field = field
+        self.enum = prog.cls(enum_short)
+        self.members = {}
+        for st in self.enum.node.body:
+            if isinstance(st, ast.Assign) and len(st.targets) == 1 and isinstance(st.targets[0], ast.Name) and not st.targets[0].id.startswith("_"):
+                v = st.value
+                self.members[st.targets[0].id] = v.value if isinstance(v, ast.Constant) else None
+        self.is_enum = any(b.split(".")[-1] in ("Enum", "IntEnum", "IntFlag", "Flag", "StrEnum") for b in self.enum.bases)
+        # module-level aliases of members in the module of the enumeration: `CON = Type.CON`, `CON, NON = Type.CON, Type.NON`
+        self.aliases = {}
+        em = self.enum.module
+        for st in em.tree.body:
+            if not isinstance(st, ast.Assign):
+                continue
+            for t in st.targets:
+                pairs = []
+                if isinstance(t, ast.Name):
+                    pairs = [(t, st.value)]
+                elif isinstance(t, (ast.Tuple, ast.List)) and isinstance(st.value, (ast.Tuple, ast.List)) and len(t.elts) == len(st.value.elts):
+                    pairs = list(zip(t.elts, st.value.elts))
+                for tt, vv in pairs:
+                    c = chain(vv)
+                    if isinstance(tt, ast.Name) and c and c.split(".")[0] == self.enum.node.name and len(c.split(".")) == 2 and c.split(".")[1] in self.members:
+                        self.aliases["%s.%s" % (em.name, tt.id)] = c.split(".")[1]
+        self._stars = {}
+        self._flows = {}
+        self._rets = {}
+        self._locals = {}
+
+    # -- names -------------------------------------------------------------------------------------------------
+    def _star_sources(self, m):
+        r = self._stars.get(m.name)
+        if r is None:
+            r = []
+            pkgparts = m.name.split(".") if m.is_pkg else m.name.split(".")[:-1]
+            for node in ast.walk(m.tree):
+                if isinstance(node, ast.ImportFrom) and any(a.name == "*" for a in node.names):
+                    if node.level:
+                        base = pkgparts[: len(pkgparts) - (node.level - 1)]
+                        r.append(".".join(base + ([node.module] if node.module else [])))
+                    else:
+                        r.append(node.module or "")
+            self._stars[m.name] = r
+        return r
+
+    def qualify(self, m, dotted, depth=0):
+        """qualified name of a dotted name used in module m, following re-exports including `from x import *`"""
+        q = self.prog.resolve_in_module(m, dotted)
+        return self._canon(q, depth)
+
+    def _canon(self, q, depth=0):
+        if depth > 6 or q in self.aliases or q in self.prog.classes or q in self.prog.funcs:
+            return q
+        parts = q.split(".")
+        if len(parts) == 1:
+            return q
+        for i in range(len(parts) - 1, 0, -1):
+            mod = ".".join(parts[:i])
+            if mod in self.prog.modules:
+                mm = self.prog.modules[mod]
+                rest = parts[i:]
+                if rest[0] in mm.imports:
+                    nq = ".".join([mm.imports[rest[0]]] + rest[1:])
+                    if nq != q:
+                        return self._canon(self.prog.canonical(nq), depth + 1)
+                if not self.prog._module_defines(mm, rest[0]):
+                    for src in self._star_sources(mm):
+                        nq = self._canon(self.prog.canonical(".".join([src] + rest)), depth + 1)
+                        if nq in self.aliases or nq in self.prog.classes or nq in self.prog.funcs or self._is_member_qn(nq):
+                            return nq
+                return q
+        return q
+
+    def _is_member_qn(self, q):
+        return q.startswith(self.enum.qn + ".") and q[len(self.enum.qn) + 1:] in self.members
+
+    def member_of(self, m, e):
+        """name of the member of the enumeration that the name / attribute chain `e` (used in module m) denotes"""
+        c = chain(e)
+        if not c:
+            return None
+        q = self.qualify(m, c)
+        if q in self.aliases:
+            return self.aliases[q]
+        if self._is_member_qn(q):
+            return q[len(self.enum.qn) + 1:]
+        if "." not in q and not self.prog._module_defines(m, q) and q not in m.imports:
+            # a bare name the module neither defines nor imports by name: a star import
+            for src in self._star_sources(m):
+                q2 = self._canon(self.prog.canonical("%s.%s" % (src, q)))
+                if q2 in self.aliases:
+                    return self.aliases[q2]
+        return None
+
+    def is_enum_class(self, m, e):
+        c = chain(e)
+        return bool(c) and self.qualify(m, c) == self.enum.qn
+
+    def _member_tag(self, name):
+        v = self.members.get(name)
+        return _tag("member", "", "?" if v is None else ("t" if v else "f"))
+
+    # -- contexts ------------------------------------------------------------------------------------------------
+    def locals_of(self, fi):
+        r = self._locals.get(fi.qn)
+        if r is None:
+            r = set()
+            a = fi.node.args
+            for x in a.posonlyargs + a.args + a.kwonlyargs + ([a.vararg] if a.vararg else []) + ([a.kwarg] if a.kwarg else []):
+                r.add(x.arg)
+            for n in walk_no_nested(fi.node):
+                if isinstance(n, ast.Name) and isinstance(n.ctx, (ast.Store, ast.Del)):
+                    r.add(n.id)
+                elif isinstance(n, (ast.FunctionDef, ast.AsyncFunctionDef, ast.ClassDef)) and n is not fi.node:
+                    r.add(n.name)
+                elif isinstance(n, (ast.Import, ast.ImportFrom)):
+                    for al in n.names:
+                        r.add((al.asname or al.name).split(".")[0])
+                elif isinstance(n, ast.ExceptHandler) and n.name:
+                    r.add(n.name)
+                elif isinstance(n, (ast.MatchAs, ast.MatchStar)) and n.name:
+                    r.add(n.name)
+                elif isinstance(n, ast.MatchMapping) and n.rest:
+                    r.add(n.rest)
+            if fi.parent is not None:
+                r |= {"\0outer:" + x for x in self.locals_of(fi.parent)}
+            self._locals[fi.qn] = r
+        return r
+
+    def _owner_class(self, fi):
+        f = fi
+        while f is not None and f.cls is None:
+            f = f.parent
+        return f.cls if f is not None else None
+
+    # -- evaluation ----------------------------------------------------------------------------------------------
+    def eval(self, fi, module, e, st, depth=3):
+        """abstract value (frozenset of tags) of expression e in state st (fi may be None: module / class level)"""
+        ev = lambda x, s=st: self.eval(fi, module, x, s, depth)
+        if e is None:
+            return frozenset({_tag("opaque", "no value")})
+        if isinstance(e, ast.Constant):
+            if e.value is None:
+                return frozenset({T_NONE})
+            return frozenset({_tag("raw", "the constant %r" % (e.value,), "t" if e.value else "f")})
+        if isinstance(e, ast.NamedExpr):
+            return ev(e.value)
+        if isinstance(e, ast.IfExp):
+            out = frozenset()
+            s1 = self.refine(fi, module, st, e.test, True)
+            if s1 is not None:
+                out |= self.eval(fi, module, e.body, s1, depth)
+            s2 = self.refine(fi, module, st, e.test, False)
+            if s2 is not None:
+                out |= self.eval(fi, module, e.orelse, s2, depth)
+            return out
+        if isinstance(e, ast.BoolOp):
+            is_and = isinstance(e.op, ast.And)
+            out = frozenset()
+            s = st
+            for i, v in enumerate(e.values):
+                if s is None:
+                    break
+                val = self.eval(fi, module, v, s, depth)
+                if i == len(e.values) - 1:
+                    out |= val
+                else:
+                    out |= _falsy(val) if is_and else _truthy(val)
+                    s = self.refine(fi, module, s, v, is_and)
+            return out
+        if isinstance(e, ast.Name):
+            if e.id in st:
+                return st[e.id]
+            loc = self.locals_of(fi) if fi is not None else set()
+            if e.id in loc:
+                return frozenset({_tag("opaque", "`%s` is not bound on this path" % e.id)})
+            if ("\0outer:" + e.id) in loc:
+                return frozenset({_tag("opaque", "`%s` is a variable of the enclosing function" % e.id)})
+            mname = self.member_of(module, e)
+            if mname is not None:
+                return frozenset({self._member_tag(mname)})
+            return self._module_value(module, e.id, depth)
+        if isinstance(e, ast.Attribute):
+            if e.attr == self.field:
+                return frozenset({T_NONE, _tag("member", "", "?")})
+            head = e
+            while isinstance(head, ast.Attribute):
+                head = head.value
+            if isinstance(head, ast.Name) and head.id not in st and (fi is None or head.id not in self.locals_of(fi)):
+                mname = self.member_of(module, e)
+                if mname is not None:
+                    return frozenset({self._member_tag(mname)})
+            return frozenset({_tag("opaque", "`%s`" % txt(e))})
+        if isinstance(e, ast.Subscript):
+            if self._free_chain(fi, st, e.value) and self.is_enum_class(module, e.value):
+                return frozenset({_tag("member", "", "?")})
+            # table-driven: an element of a literal tuple / list / dict (in place, a local, or a module constant)
+            tab = self._table(fi, module, e.value, st)
+            if tab is not None:
+                out = frozenset()
+                for x in tab[1]:
+                    out |= self.eval(None, tab[0], x, {}, depth)
+                return out
+            if fi is not None and isinstance(e.value, ast.Name) and fi.node.args.kwarg is not None and e.value.id == fi.node.args.kwarg.arg and e.value.id not in self._rebound(fi):
+                return frozenset({_tag("raw", "the caller's keyword value `%s`" % txt(e))})
+            return frozenset({_tag("opaque", "`%s`" % txt(e))})
+        if isinstance(e, (ast.BinOp, ast.Compare)) or (isinstance(e, ast.UnaryOp)):
+            return frozenset({_tag("raw", "the number / Boolean `%s`" % txt(e))})
+        if isinstance(e, (ast.List, ast.Tuple, ast.Dict, ast.Set, ast.ListComp, ast.SetComp, ast.DictComp, ast.GeneratorExp, ast.JoinedStr, ast.Lambda)):
+            return frozenset({_tag("raw", "`%s`" % txt(e))})
+        if isinstance(e, ast.Call):
+            return self._call(fi, module, e, st, depth)
+        return frozenset({_tag("opaque", "`%s`" % txt(e))})
+
+    def _table(self, fi, module, e, st, depth=3):
+        """(module, element expressions, is a dict) of a literal collection: written in place, held by a local
+        that is assigned once, or a module-level constant.  The elements must not mention locals (they are
+        evaluated outside the function's state); None otherwise."""
+        if depth <= 0:
+            return None
+        if isinstance(e, (ast.Tuple, ast.List)):
+            elts, isdict = list(e.elts), False
+        elif isinstance(e, ast.Dict):
+            if any(k is None for k in e.keys):
+                return None
+            elts, isdict = list(e.values), True
+        elif isinstance(e, ast.Name):
+            loc = self.locals_of(fi) if fi is not None else set()
+            if e.id in loc:
+                vals = []
+                for n in walk_no_nested(fi.node):
+                    if isinstance(n, ast.Name) and n.id == e.id and isinstance(n.ctx, (ast.Store, ast.Del)):
+                        vals.append(n)
+                a = fi.node.args
+                if len(vals) != 1 or e.id in {x.arg for x in a.posonlyargs + a.args + a.kwonlyargs}:
+                    return None
+                for n in walk_no_nested(fi.node):
+                    if isinstance(n, ast.Assign) and len(n.targets) == 1 and n.targets[0] is vals[0]:
+                        return self._table(fi, module, n.value, st, depth - 1)
+                return None
+            if ("\0outer:" + e.id) in loc:
+                return None
+            return self._module_table(module, e.id, depth)
+        elif isinstance(e, ast.Attribute) and self._free_chain(fi, st, e):
+            return self._module_table(module, chain(e) or "", depth)
+        elif isinstance(e, ast.Attribute) and isinstance(e.value, ast.Name) and e.value.id in ("self", "cls") and fi is not None and self._owner_class(fi) is not None:
+            # a class-level constant table read through the instance (never rebound as an instance attribute)
+            cls = self._owner_class(fi)
+            v, ci = self.prog.class_attr(cls.qn, e.attr)
+            if v is None:
+                return None
+            for q in self.prog.mro(cls.qn) + [c_.qn for c_ in self.prog.classes.values() if self.prog.is_subclass(c_.qn, cls.qn)]:
+                c2 = self.prog.classes.get(q)
+                if c2 is None:
+                    continue
+                for mfi in c2.methods.values():
+                    for n in ast.walk(mfi.node):
+                        if isinstance(n, ast.Attribute) and n.attr == e.attr and isinstance(n.ctx, (ast.Store, ast.Del)):
+                            return None
+            return self._table(None, ci.module, v, {}, depth - 1)
+        else:
+            return None
+        if any(isinstance(x, ast.Starred) for x in elts):
+            return None
+        if fi is not None:
+            loc = self.locals_of(fi)
+            for x in elts:
+                if any(isinstance(n, ast.Name) and (n.id in loc or ("\0outer:" + n.id) in loc) for n in ast.walk(x)):
+                    return None
+        return module, elts, isdict
+
+    def _module_table(self, module, dotted, depth):
+        if not dotted:
+            return None
+        q = self.qualify(module, dotted)
+        parts = q.rsplit(".", 1)
+        if len(parts) != 2 or parts[0] not in self.prog.modules:
+            return None
+        mm = self.prog.modules[parts[0]]
+        vals = [s_.value for s_ in ast.walk(mm.tree) if isinstance(s_, ast.Assign) and any(isinstance(t, ast.Name) and t.id == parts[1] for t in s_.targets)]
+        top = [s_.value for s_ in mm.tree.body if isinstance(s_, ast.Assign)]
+        if len(vals) != 1 or not any(v is vals[0] for v in top):
+            return None
+        return self._table(None, mm, vals[0], {}, depth - 1)
+
+    def _free_chain(self, fi, st, e):
+        head = e
+        while isinstance(head, ast.Attribute):
+            head = head.value
+        return isinstance(head, ast.Name) and head.id not in st and (fi is None or head.id not in self.locals_of(fi))
+
+    def _rebound(self, fi):
+        """locals of fi that are bound by something else than being a parameter"""
+        out = set()
+        for n in walk_no_nested(fi.node):
+            if isinstance(n, ast.Name) and isinstance(n.ctx, (ast.Store, ast.Del)):
+                out.add(n.id)
+        return out
+
+    def _module_value(self, module, name, depth):
+        """value of a module-level name (a constant alias such as `DEFAULT_TYPE = NON`)"""
+        if depth > 0:
+            q = self.qualify(module, name)
+            parts = q.rsplit(".", 1)
+            if len(parts) == 2 and parts[0] in self.prog.modules:
+                mm = self.prog.modules[parts[0]]
+                vals = []
+                for st_ in ast.walk(mm.tree):
+                    if isinstance(st_, ast.Assign) and any(isinstance(t, ast.Name) and t.id == parts[1] for t in st_.targets):
+                        vals.append(st_.value)
+                    elif isinstance(st_, ast.AnnAssign) and isinstance(st_.target, ast.Name) and st_.target.id == parts[1] and st_.value is not None:
+                        vals.append(st_.value)
+                top = [s_ for s_ in mm.tree.body if isinstance(s_, (ast.Assign, ast.AnnAssign))]
+                if vals and all(any(v is getattr(s_, "value", None) for s_ in top) for v in vals):
+                    out = frozenset()
+                    for v in vals:
+                        out |= self.eval(None, mm, v, {}, depth - 1)
+                    return out
+        return frozenset({_tag("opaque", "the global `%s`" % name)})
+
+    RAW_BUILTINS = {"int", "bool", "len", "ord", "abs", "min", "max", "sum", "float", "str", "bytes", "repr", "hash", "round", "divmod", "list", "tuple", "dict", "set", "frozenset", "isinstance", "issubclass", "callable", "hasattr", "any", "all"}
+
+    def _call(self, fi, module, e, st, depth):
+        f = e.func
+        if self._free_chain(fi, st, f) and self.is_enum_class(module, f):
+            # Enum lookup by value: the member, or ValueError
+            return frozenset({_tag("member", "", "?")})
+        if isinstance(f, ast.Name) and f.id in self.RAW_BUILTINS and f.id not in st and (fi is None or f.id not in self.locals_of(fi)) and self.prog.resolve_in_module(module, f.id) == f.id:
+            return frozenset({_tag("raw", "the result of `%s`" % txt(e))})
+        # what the caller passed as keyword arguments
+        if fi is not None and isinstance(f, ast.Attribute) and isinstance(f.value, ast.Name) and fi.node.args.kwarg is not None and f.value.id == fi.node.args.kwarg.arg and f.value.id not in self._rebound(fi) and f.attr in ("get", "pop", "setdefault") and e.args:
+            out = frozenset({_tag("raw", "the caller's keyword value `%s`" % txt(e))})
+            if len(e.args) > 1:
+                out |= self.eval(fi, module, e.args[1], st, depth)
+            elif f.attr == "get":
+                out |= frozenset({T_NONE})
+            return out
+        if isinstance(f, ast.Attribute) and f.attr == "get" and e.args and not e.keywords and len(e.args) <= 2:
+            tab = self._table(fi, module, f.value, st)
+            if tab is not None and tab[2]:
+                out = self.eval(fi, module, e.args[1], st, depth) if len(e.args) == 2 else frozenset({T_NONE})
+                for x in tab[1]:
+                    out |= self.eval(None, tab[0], x, {}, depth)
+                return out
+        if isinstance(f, ast.Name) and fi is not None and depth > 0:
+            # a local name bound once to a lambda: its body with the arguments bound
+            binders = [n for n in walk_no_nested(fi.node) if (isinstance(n, ast.Name) and n.id == f.id and isinstance(n.ctx, (ast.Store, ast.Del))) or (isinstance(n, (ast.FunctionDef, ast.AsyncFunctionDef, ast.ClassDef)) and n is not fi.node and n.name == f.id)]
+            a0 = fi.node.args
+            if len(binders) == 1 and isinstance(binders[0], ast.Name) and f.id not in {x.arg for x in a0.posonlyargs + a0.args + a0.kwonlyargs}:
+                lam = None
+                for n in walk_no_nested(fi.node):
+                    if isinstance(n, ast.Assign) and len(n.targets) == 1 and n.targets[0] is binders[0] and isinstance(n.value, ast.Lambda):
+                        lam = n.value
+                la = lam.args if lam is not None else None
+                if lam is not None and not (la.vararg or la.kwarg or la.kwonlyargs or la.defaults or e.keywords) and len(la.posonlyargs + la.args) == len(e.args) and not any(isinstance(x, ast.Starred) for x in e.args):
+                    # free variables of the body are read when the lambda runs: only parameters and globals are followed
+                    pn = [x.arg for x in la.posonlyargs + la.args]
+                    loc = self.locals_of(fi)
+                    if not any(isinstance(n, ast.Name) and n.id not in pn and (n.id in loc or ("\0outer:" + n.id) in loc) for n in ast.walk(lam.body)):
+                        st2 = dict(st)
+                        for p_, a_ in zip(pn, e.args):
+                            st2[p_] = self.eval(fi, module, a_, st, depth)
+                        return self.eval(fi, module, lam.body, st2, depth - 1)
+        cfi, skip = self._callee(fi, module, e, st)
+        if cfi is not None and depth > 0:
+            r = self._returns(cfi, skip, fi, module, e, st, depth)
+            if r is not None:
+                return r
+        return frozenset({_tag("opaque", "the result of `%s`" % txt(e))})
+
+    def _callee(self, fi, module, call, st):
+        """(FuncInfo, number of leading parameters bound implicitly) of a call to a function of the package"""
+        f = call.func
+        if isinstance(f, ast.Attribute):
+            base = f.value
+            cls = self._owner_class(fi) if fi is not None else None
+            if cls is not None and ((isinstance(base, ast.Name) and base.id in ("self", "cls")) or (isinstance(base, ast.Call) and chain(base.func) == "type" and len(base.args) == 1 and chain(base.args[0]) == "self")):
+                cfi = self.prog.lookup_method(cls.qn, f.attr)
+                if cfi is not None:
+                    deco = {chain(d) for d in cfi.node.decorator_list}
+                    return cfi, (0 if "staticmethod" in deco else 1)
+                return None, 0
+            if self._free_chain(fi, st, f):
+                q = self.qualify(module, chain(f) or "")
+                cfi = self.prog.funcs.get(q)
+                if cfi is not None:
+                    deco = {chain(d) for d in cfi.node.decorator_list}
+                    if cfi.cls is None:
+                        return cfi, 0
+                    if "staticmethod" in deco:
+                        return cfi, 0
+                    if "classmethod" in deco:
+                        return cfi, 1
+            return None, 0
+        if isinstance(f, ast.Name) and fi is not None:
+            # a nested function of this function (its name is bound by the one definition only)
+            binders = [n for n in walk_no_nested(fi.node) if (isinstance(n, ast.Name) and n.id == f.id and isinstance(n.ctx, (ast.Store, ast.Del))) or (isinstance(n, (ast.FunctionDef, ast.AsyncFunctionDef, ast.ClassDef)) and n is not fi.node and n.name == f.id)]
+            if len(binders) == 1 and isinstance(binders[0], ast.FunctionDef):
+                for cand in self.prog.funcs.values():
+                    if cand.parent is fi and cand.node is binders[0]:
+                        return cand, 0
+        if isinstance(f, ast.Name) and f.id not in st:
+            if fi is not None:
+                if f.id in self.locals_of(fi):
+                    return None, 0
+            q = self.qualify(module, f.id)
+            cfi = self.prog.funcs.get(q)
+            if cfi is not None and cfi.cls is None:
+                return cfi, 0
+        return None, 0
+
+    def _returns(self, cfi, skip, fi, module, call, st, depth):
+        """union of the values the callee returns with the call's arguments bound; None when not interpretable"""
+        node = cfi.node
+        if isinstance(node, ast.AsyncFunctionDef) or any(isinstance(n, (ast.Yield, ast.YieldFrom)) for n in walk_no_nested(node)):
+            return None
+        a = node.args
+        pos = [x.arg for x in a.posonlyargs + a.args][skip:]
+        if any(isinstance(x, ast.Starred) for x in call.args) or any(kw.arg is None for kw in call.keywords) or len(call.args) > len(pos):
+            return None
+        bound = {}
+        for p_, a_ in zip(pos, call.args):
+            bound[p_] = self.eval(fi, module, a_, st, depth)
+        allnames = set(pos) | {x.arg for x in a.kwonlyargs}
+        for kw in call.keywords:
+            if kw.arg in allnames:
+                bound[kw.arg] = self.eval(fi, module, kw.value, st, depth)
+            elif a.kwarg is None:
+                return None
+        # defaults
+        dpos = [x.arg for x in a.posonlyargs + a.args]
+        for p_, d_ in zip(dpos[len(dpos) - len(a.defaults):], a.defaults):
+            if p_ in pos and p_ not in bound:
+                bound[p_] = self.eval(None, cfi.module, d_, {}, depth - 1)
+        for p_, d_ in zip(a.kwonlyargs, a.kw_defaults):
+            if p_.arg not in bound and d_ is not None:
+                bound[p_.arg] = self.eval(None, cfi.module, d_, {}, depth - 1)
+        key = (cfi.qn, tuple(sorted((k, tuple(sorted(v))) for k, v in bound.items())))
+        if key in self._rets:
+            return self._rets[key]
+        self._rets[key] = frozenset({_tag("opaque", "the result of the recursive `%s`" % cfi.name)})
+        cfg = cfg_of(cfi)
+        flow = self.flow(cfi, bound, depth - 1, cache=False)
+        out = frozenset()
+        for n in cfg.nodes:
+            if n.kind == "return" and n.id in flow:
+                out |= self.eval(cfi, cfi.module, n.ast.value, flow[n.id], depth - 1) if n.ast.value is not None else frozenset({T_NONE})
+        # falling off the end
+        for p_, lab in cfg.pred[cfg.exit]:
+            if cfg.nodes[p_].kind != "return" and p_ in flow and lab != "exc":
+                out |= frozenset({T_NONE})
+        self._rets[key] = out
+        return out
+
+    # -- refinement ------------------------------------------------------------------------------------------------
+    def refine(self, fi, module, st, cond, pol):
+        """state after `cond` evaluated to pol; None when that outcome is impossible in st"""
+        c, pol = strip_not(cond, pol)
+        if isinstance(c, ast.NamedExpr):
+            st = dict(st)
+            st[c.target.id] = self.eval(fi, module, c.value, st)
+            return self.refine(fi, module, st, ast.Name(id=c.target.id, ctx=ast.Load()), pol)
+        if isinstance(c, ast.BoolOp):
+            if isinstance(c.op, ast.And) == pol:
+                for v in c.values:
+                    st = self.refine(fi, module, st, v, pol)
+                    if st is None:
+                        return None
+                return st
+            # `a or b` true / `a and b` false: one of the operands decided it, the earlier ones went the other way
+            alts = []
+            s = st
+            for v in c.values:
+                s1 = self.refine(fi, module, s, v, pol)
+                if s1 is not None:
+                    alts.append(s1)
+                s = self.refine(fi, module, s, v, not pol)
+                if s is None:
+                    break
+            if not alts:
+                return None
+            out = alts[0]
+            for s1 in alts[1:]:
+                out = self._join(out, s1)
+            return out
+        if isinstance(c, ast.Name) and c.id in st:
+            new = (_truthy if pol else _falsy)(st[c.id])
+            if not new:
+                return None
+            st = dict(st)
+            st[c.id] = new
+            return st
+        if isinstance(c, ast.Compare) and len(c.ops) == 1:
+            op, l, r = c.ops[0], c.left, c.comparators[0]
+            if isinstance(l, ast.NamedExpr):
+                st = dict(st)
+                st[l.target.id] = self.eval(fi, module, l.value, st)
+                l = ast.Name(id=l.target.id, ctx=ast.Load())
+            if isinstance(r, ast.Name) and r.id in st and not (isinstance(l, ast.Name) and l.id in st):
+                l, r = r, l
+            if not (isinstance(l, ast.Name) and l.id in st):
+                return st
+            cur = st[l.id]
+            new = None
+            if is_none(r) and isinstance(op, (ast.Is, ast.IsNot, ast.Eq, ast.NotEq)):
+                same_ = pol == isinstance(op, (ast.Is, ast.Eq))
+                if same_:
+                    new = frozenset({T_NONE}) if any(k != "member" for k, _, _ in cur) else frozenset()
+                else:
+                    new = frozenset(t for t in cur if t[0] != "none")
+            elif isinstance(op, (ast.Is, ast.IsNot)) and self._free_chain(fi, st, r) and self.member_of(module, r) is not None:
+                if pol == isinstance(op, ast.Is):
+                    new = frozenset({self._member_tag(self.member_of(module, r))}) if any(k != "none" for k, _, _ in cur) else frozenset()
+            if new is None:
+                return st
+            if not new:
+                return None
+            st = dict(st)
+            st[l.id] = new
+            return st
+        if isinstance(c, ast.Call) and isinstance(c.func, ast.Name) and c.func.id == "isinstance" and len(c.args) == 2 and isinstance(c.args[0], ast.Name) and c.args[0].id in st:
+            if pol and self._free_chain(fi, st, c.args[1]) and self.is_enum_class(module, c.args[1]):
+                cur = st[c.args[0].id]
+                if not any(k != "none" for k, _, _ in cur):
+                    return None
+                st = dict(st)
+                st[c.args[0].id] = frozenset({_tag("member", "", "?")})
+            return st
+        return st
+
+    # -- data-flow ---------------------------------------------------------------------------------------------------
+    def flow(self, fi, init=None, depth=3, cache=True):
+        """{cfg node id: state (name -> abstract value) before the node executes}"""
+        if cache and init is None and fi.qn in self._flows:
+            return self._flows[fi.qn]
+        cfg = cfg_of(fi)
+        module = fi.module
+        a = fi.node.args
+        st0 = {}
+        for x in a.posonlyargs + a.args + a.kwonlyargs:
+            st0[x.arg] = frozenset({_tag("raw", "the value the caller passes as `%s`" % x.arg)})
+        if a.vararg:
+            st0[a.vararg.arg] = frozenset({_tag("raw", "the caller's positional arguments")})
+        if a.kwarg:
+            st0[a.kwarg.arg] = frozenset({_tag("raw", "the caller's keyword arguments", "?")})
+        if init:
+            st0.update(init)
+        ins = {cfg.entry: st0}
+        todo = [cfg.entry]
+        rounds = 0
+        while todo:
+            rounds += 1
+            if rounds > 200000:
+                raise AnalysisError("%s: the data-flow over the values of `.%s` does not settle" % (fi.short, self.field))
+            n = todo.pop()
+            st = ins[n]
+            out = self._transfer(fi, module, cfg.nodes[n], st, depth)
+            for s_, lab in cfg.succ[n]:
+                if lab == "exc":
+                    contrib = st if out is None else self._join(st, out)
+                else:
+                    contrib = out
+                if contrib is None:
+                    continue
+                old = ins.get(s_)
+                new = contrib if old is None else self._join(old, contrib)
+                if old is None or new != old:
+                    ins[s_] = new
+                    todo.append(s_)
+        if cache and init is None:
+            self._flows[fi.qn] = ins
+        return ins
+
+    @staticmethod
+    def _join(a, b):
+        if a is b:
+            return a
+        out = dict(a)
+        for k, v in b.items():
+            out[k] = (out[k] | v) if k in out else v
+        return out
+
+    def _bind_target(self, fi, module, st, target, value, value_node, depth):
+        """bind the names of an assignment target; value = abstract value or None (then value_node is evaluated
+        component-wise where the shapes allow it)"""
+        if isinstance(target, ast.Name):
+            st[target.id] = value if value is not None else self.eval(fi, module, value_node, st, depth)
+        elif isinstance(target, (ast.Tuple, ast.List)):
+            vn = value_node
+            if vn is not None and isinstance(vn, (ast.Tuple, ast.List)) and len(vn.elts) == len(target.elts) and not any(isinstance(x, ast.Starred) for x in list(vn.elts) + list(target.elts)):
+                vals = [self.eval(fi, module, x, st, depth) for x in vn.elts]
+                for t_, v_ in zip(target.elts, vals):
+                    self._bind_target(fi, module, st, t_, v_, None, depth)
+            else:
+                for name, _ in pattern_names(target):
+                    st[name] = frozenset({_tag("opaque", "a component of `%s`" % (txt(vn) if vn is not None else "an unpacked value"))})
+        elif isinstance(target, ast.Starred):
+            self._bind_target(fi, module, st, target.value, frozenset({_tag("raw", "a list of unpacked values")}), None, depth)
+
+    def _transfer(self, fi, module, nd, st, depth):
+        k = nd.kind
+        if k in ("T", "F"):
+            if nd.ast is None or isinstance(nd.ast, (ast.For, ast.AsyncFor)):
+                return st
+            return self.refine(fi, module, st, nd.ast, k == "T")
+        node = nd.ast
+        if node is None or k in ("entry", "exit", "rexit", "join"):
+            return st
+        new = None
+
+        def w():
+            nonlocal new
+            if new is None:
+                new = dict(st)
+            return new
+
+        opaque = lambda why: frozenset({_tag("opaque", why)})
+        if k == "handler":
+            if node.name:
+                w()[node.name] = opaque("the caught exception")
+            return new if new is not None else st
+        if k == "for":
+            for name, _ in pattern_names(node.target):
+                w()[name] = opaque("an element of `%s`" % txt(node.iter))
+            return new if new is not None else st
+        if k == "with":
+            for it in node.items:
+                if it.optional_vars is not None:
+                    for name, _ in pattern_names(it.optional_vars):
+                        w()[name] = opaque("what `%s` yields" % txt(it.context_expr))
+            return new if new is not None else st
+        if k == "test":
+            # T/F refine; a walrus in the test binds on both outcomes
+            for x in walk_no_nested(node):
+                if isinstance(x, ast.NamedExpr):
+                    cur = w()
+                    cur[x.target.id] = self.eval(fi, module, x.value, cur, depth)
+            return new if new is not None else st
+        # simple statements, return, raise
+        if isinstance(node, ast.Match):
+            for x in ast.walk(node):
+                if isinstance(x, (ast.MatchAs, ast.MatchStar)) and x.name:
+                    w()[x.name] = opaque("a captured sub-pattern")
+                elif isinstance(x, ast.MatchMapping) and x.rest:
+                    w()[x.rest] = opaque("a captured sub-pattern")
+            return new if new is not None else st
+        if isinstance(node, (ast.FunctionDef, ast.AsyncFunctionDef, ast.ClassDef)):
+            w()[node.name] = opaque("a nested definition")
+            return new
+        for x in walk_no_nested(node):
+            if isinstance(x, ast.NamedExpr):
+                cur = w()
+                cur[x.target.id] = self.eval(fi, module, x.value, cur, depth)
+        if isinstance(node, ast.Assign):
+            cur = w()
+            val = self.eval(fi, module, node.value, cur, depth) if any(isinstance(t, ast.Name) for t in node.targets) else None
+            for t in node.targets:
+                if isinstance(t, ast.Name):
+                    cur[t.id] = val
+                else:
+                    self._bind_target(fi, module, cur, t, None, node.value, depth)
+        elif isinstance(node, ast.AnnAssign):
+            if node.value is not None and isinstance(node.target, ast.Name):
+                cur = w()
+                cur[node.target.id] = self.eval(fi, module, node.value, cur, depth)
+        elif isinstance(node, ast.AugAssign):
+            if isinstance(node.target, ast.Name):
+                w()[node.target.id] = frozenset({_tag("raw", "the result of `%s`" % txt(node))})
+        elif isinstance(node, ast.Delete):
+            for t in node.targets:
+                if isinstance(t, ast.Name) and t.id in st:
+                    w().pop(t.id, None)
+        elif isinstance(node, (ast.Import, ast.ImportFrom)):
+            for al in node.names:
+                w()[(al.asname or al.name).split(".")[0]] = opaque("an imported name")
+        return new if new is not None else st
+
+    # -- stores ------------------------------------------------------------------------------------------------------
+    def stores(self):
+        """Every store into `<x>.<field>` in the package: [(FuncInfo | None, module, statement, value expr | None,
+        fixed abstract value | None, how)] -- plain / tuple / annotated / augmented assignment, `setattr` /
+        `object.__setattr__` with the constant name, `x.__dict__[name] = v`, `x.__dict__.update(name=v)`,
+        `vars(x)[name] = v`, a loop / with / walrus-free target.  Stores whose attribute name is computed
+        (`setattr(o, k, v)`) cannot be attributed to the field and are not listed."""
+        out = []
+        owner = {}
+        for fi in self.prog.funcs.values():
+            for n in walk_no_nested(fi.node):
+                owner[id(n)] = fi
+        for m in self.prog.modules.values():
+            for n in ast.walk(m.tree):
+                fi = owner.get(id(n))
+                if isinstance(n, (ast.Assign, ast.AnnAssign, ast.AugAssign)):
+                    targets = n.targets if isinstance(n, ast.Assign) else [n.target]
+                    value = getattr(n, "value", None)
+                    for t in targets:
+                        for tt, vv, fixed in self._flatten(t, value):
+                            if self._is_field_target(tt):
+                                if isinstance(n, ast.AugAssign):
+                                    out.append((fi, m, n, None, frozenset({_tag("raw", "the result of `%s`" % txt(n))}), "augmented assignment"))
+                                elif isinstance(n, ast.AnnAssign) and value is None:
+                                    continue
+                                else:
+                                    out.append((fi, m, n, vv, fixed, "assignment"))
+                elif isinstance(n, (ast.For, ast.AsyncFor)):
+                    for tt, _, _ in self._flatten(n.target, None):
+                        if self._is_field_target(tt):
+                            out.append((fi, m, n, None, frozenset({_tag("opaque", "an element of `%s`" % txt(n.iter))}), "loop target"))
+                elif isinstance(n, (ast.With, ast.AsyncWith)):
+                    for it in n.items:
+                        if it.optional_vars is not None:
+                            for tt, _, _ in self._flatten(it.optional_vars, None):
+                                if self._is_field_target(tt):
+                                    out.append((fi, m, n, None, frozenset({_tag("opaque", "what `%s` yields" % txt(it.context_expr))}), "with target"))
+                elif isinstance(n, ast.Call):
+                    cn = (call_name(n) or "").split(".")[-1]
+                    if cn in ("setattr", "__setattr__") and len(n.args) >= 3 and isinstance(n.args[-2], ast.Constant) and n.args[-2].value == self.field and not n.keywords:
+                        out.append((fi, m, n, n.args[-1], None, "setattr"))
+                    elif cn == "update" and isinstance(n.func, ast.Attribute) and self._is_attr_dict(n.func.value):
+                        for kw in n.keywords:
+                            if kw.arg == self.field:
+                                out.append((fi, m, n, kw.value, None, "__dict__.update"))
+                        for a_ in n.args:
+                            if isinstance(a_, ast.Dict):
+                                for k_, v_ in zip(a_.keys, a_.values):
+                                    if isinstance(k_, ast.Constant) and k_.value == self.field:
+                                        out.append((fi, m, n, v_, None, "__dict__.update"))
+        return out
+
+    def _is_attr_dict(self, e):
+        if isinstance(e, ast.Attribute) and e.attr == "__dict__":
+            return True
+        return isinstance(e, ast.Call) and chain(e.func) == "vars" and len(e.args) == 1
+
+    def _is_field_target(self, t):
+        if isinstance(t, ast.Attribute) and t.attr == self.field:
+            return True
+        if isinstance(t, ast.Subscript) and isinstance(t.slice, ast.Constant) and t.slice.value == self.field and self._is_attr_dict(t.value):
+            return True
+        return False
+
+    def _flatten(self, target, value):
+        """[(leaf target, value expr | None, fixed abstract value | None)]"""
+        if isinstance(target, (ast.Tuple, ast.List)):
+            out = []
+            if value is not None and isinstance(value, (ast.Tuple, ast.List)) and len(value.elts) == len(target.elts) and not any(isinstance(x, ast.Starred) for x in list(value.elts) + list(target.elts)):
+                for t_, v_ in zip(target.elts, value.elts):
+                    out.extend(self._flatten(t_, v_))
+            else:
+                for t_ in target.elts:
+                    if isinstance(t_, ast.Starred):
+                        t_ = t_.value
+                    for leaf, _, _ in self._flatten(t_, None):
+                        out.append((leaf, None, frozenset({_tag("opaque", "a component of `%s`" % (txt(value) if value is not None else "an unpacked value"))})))
+            return out
+        return [(target, value, None)]
+
+    def stored_values(self, fi, module, stmt, value, fixed):
+        """abstract value a store puts into the field (union over the CFG copies of the statement); None when the
+        statement is unreachable"""
+        if fixed is not None:
+            return fixed
+        if fi is None:
+            return self.eval(None, module, value, {})
+        cfg = cfg_of(fi)
+        flow = self.flow(fi)
+        nids = [n for n in cfg.locate(stmt) if n in flow]
+        if not nids:
+            return None
+        # a value computed inside a comprehension / lambda of the statement is not followed
+        out = frozenset()
+        for nid in nids:
+            st = flow[nid]
+            nd = cfg.nodes[nid]
+            if nd.kind == "stmt" and isinstance(nd.ast, (ast.Assign, ast.AnnAssign, ast.Expr)):
+                st = dict(st)
+                for x in walk_no_nested(nd.ast):
+                    if isinstance(x, ast.NamedExpr):
+                        st[x.target.id] = self.eval(fi, module, x.value, st)
+            out |= self.eval(fi, module, value, st)
+        return out
